@@ -151,9 +151,13 @@ func vhView(keys []gcrypto.PubKey, sp *vhSpec) tmconsensus.VersionedRoundView {
 	}
 	v.PrevoteProofs = vhProofs(keys, vhPrevote, sp.h, sp.r, sp.votes[vhPrevote])
 	v.PrecommitProofs = vhProofs(keys, vhPrecommit, sp.h, sp.r, sp.votes[vhPrecommit])
-	v.Version = 1
-	v.PrevoteVersion = 1
-	v.PrecommitVersion = 1
+	// versions as the engine keeps them: bumped with every change of the respective part
+	v.PrevoteVersion, v.PrecommitVersion = 1, 1
+	for t := 0; t < 3; t++ {
+		v.PrevoteVersion += uint32(vhPopcount(sp.votes[vhPrevote][t]))
+		v.PrecommitVersion += uint32(vhPopcount(sp.votes[vhPrecommit][t]))
+	}
+	v.Version = v.PrevoteVersion + v.PrecommitVersion + uint32(len(v.ProposedHeaders))
 	return v
 }
 
@@ -286,27 +290,31 @@ func vhWord3(w [3]int) uint64 {
 	return uint64(w[0]) | uint64(w[1])<<8 | uint64(w[2])<<16
 }
 
+// what vhCheckEverything checks, in the order given by the caller (a failed obligation ends
+// the path, so the obligation expected to fail on some class comes last)
+const (
+	vhCkHeaders    = 2
+	vhCkPrevotes   = vhPrevote
+	vhCkPrecommits = vhPrecommit
+)
+
+var vhAllChecks = []int{vhCkHeaders, vhCkPrevotes, vhCkPrecommits}
+
 // vhCheckEverything compares need with got, one label per kind.
-func vhCheckEverything(pfx string, need, got vhCover, headers, prevotes, precommits bool) {
-	if headers {
-		verifrt.Observe(pfx+"-headers-need-got", uint64(need.ph), uint64(got.ph))
-		verifrt.Assert(need.ph&^got.ph == 0, pfx+":every-new-header-broadcast")
-	}
-	if prevotes {
-		verifrt.Observe(pfx+"-prevotes-need-got", vhWord3(need.votes[0]), vhWord3(got.votes[0]))
-		ok := true
-		for t := 0; t < 3; t++ {
-			ok = ok && need.votes[0][t]&^got.votes[0][t] == 0
+func vhCheckEverything(pfx string, need, got vhCover, order []int) {
+	for _, what := range order {
+		switch what {
+		case vhCkHeaders:
+			verifrt.Observe(pfx+"-headers-need-got", uint64(need.ph), uint64(got.ph))
+			verifrt.Assert(need.ph&^got.ph == 0, pfx+":every-new-header-broadcast")
+		case vhCkPrevotes, vhCkPrecommits:
+			verifrt.Observe(pfx+"-"+vhKindName[what]+"-need-got", vhWord3(need.votes[what]), vhWord3(got.votes[what]))
+			ok := true
+			for t := 0; t < 3; t++ {
+				ok = ok && need.votes[what][t]&^got.votes[what][t] == 0
+			}
+			verifrt.Assert(ok, pfx+":every-new-"+vhKindName[what][:len(vhKindName[what])-1]+"-signature-broadcast")
 		}
-		verifrt.Assert(ok, pfx+":every-new-prevote-signature-broadcast")
-	}
-	if precommits {
-		verifrt.Observe(pfx+"-precommits-need-got", vhWord3(need.votes[1]), vhWord3(got.votes[1]))
-		ok := true
-		for t := 0; t < 3; t++ {
-			ok = ok && need.votes[1][t]&^got.votes[1][t] == 0
-		}
-		verifrt.Assert(ok, pfx+":every-new-precommit-signature-broadcast")
 	}
 }
 
@@ -344,16 +352,25 @@ func vhSubsetOf(name string, w int) int {
 // the previous view (votes of one round only ever grow).
 func vhGrowingWords(name string, n int) (prev, cur [3]int) {
 	for t, hash := range vhTargets {
-		cur[t] = verifrt.Choose(name+"-cur-"+hash, 1<<uint(n))
+		cur[t] = vhAnyWord(name+"-cur-"+hash, n, t)
 		prev[t] = vhSubsetOf(name+"-prev-"+hash, cur[t])
 	}
 	return
 }
 
+// vhAnyWord: any signer word; with 3 validators (thorough) target B is limited to
+// nobody / the last validator / the first two / everybody to keep the path count down.
+func vhAnyWord(name string, n, t int) int {
+	if n > 2 && t == 2 {
+		return []int{0, 1 << uint(n-1), 1<<uint(n-1) - 1, 1<<uint(n) - 1}[verifrt.Choose(name, 4)]
+	}
+	return verifrt.Choose(name, 1<<uint(n))
+}
+
 // vhAnyWords: per target any signer word.
 func vhAnyWords(name string, n int) (w [3]int) {
 	for t, hash := range vhTargets {
-		w[t] = verifrt.Choose(name+"-"+hash, 1<<uint(n))
+		w[t] = vhAnyWord(name+"-"+hash, n, t)
 	}
 	return
 }
